@@ -204,10 +204,26 @@ pub fn abort_site(stderr: &str) -> (Option<String>, String) {
 }
 
 /// Abort / hang signatures without an attributed site are qualified with the sub-check name.
+/// One class is deliberately not split by site: in C15's `codec-streams` sub-check a decoder that
+/// asks for more memory than the per-case address-space cap allows (a hostile length turned into a
+/// multi-gigabyte request) dies in whichever of a dozen `vec![0; n]` sites the stream reaches; which
+/// one depends on the stream, the defect — "allocates what the input says before checking it
+/// against the input's size" — is one, and a signature per site would make new seeds find new
+/// "violations" of the same thing for ever.
+fn qualified_sig(sig: &str, msg: &str, sub: &str) -> String {
+    if sub == "codec-streams" && sig.starts_with("abort:") && msg.contains("memory allocation of") {
+        return "abort:SIGABRT:memory-allocation-refused@codec-streams".to_string();
+    }
+    if sig == "hang" || (sig.starts_with("abort:") && sig.matches(':').count() < 2) { format!("{sig}@{sub}") } else { sig.to_string() }
+}
+
 fn qualify_fails(fails: Vec<Fail>, sub: &str) -> Vec<Fail> {
     fails
         .into_iter()
-        .map(|f| if f.sig == "hang" || (f.sig.starts_with("abort:") && f.sig.matches(':').count() < 2) { Fail::new(format!("{}@{}", f.sig, sub), f.msg) } else { f })
+        .map(|f| {
+            let q = qualified_sig(&f.sig, &f.msg, sub);
+            if q == f.sig { f } else { Fail::new(q, f.msg) }
+        })
         .collect()
 }
 
@@ -573,7 +589,10 @@ pub fn run_property(prop: &Property, tier: Tier) -> i32 {
                 let fails: Vec<Fail> = o
                     .fails
                     .into_iter()
-                    .map(|f| if f.sig == "hang" || (f.sig.starts_with("abort:") && f.sig.matches(':').count() < 2) { Fail::new(format!("{}@{}", f.sig, s.name()), f.msg) } else { f })
+                    .map(|f| {
+                        let q = qualified_sig(&f.sig, &f.msg, s.name());
+                        if q == f.sig { f } else { Fail::new(q, f.msg) }
+                    })
                     .collect();
                 if let Some(first) = fails.iter().find(|x| !known_set.contains(&x.sig)).cloned() {
                     if seen_fail_sigs.insert(format!("{}|{}", s.name(), first.sig)) {
@@ -818,7 +837,7 @@ pub fn replay_main(lookup: &dyn Fn(&str) -> Option<Property>, path: &str) -> i32
     let mut rc = 0;
     for f in &o.fails {
         // abort/hang signatures are qualified with the sub-check name in KNOWN_FINDINGS
-        let q = if f.sig == "hang" || (f.sig.starts_with("abort:") && f.sig.matches(':').count() < 2) { format!("{}@{}", f.sig, rf.sub) } else { f.sig.clone() };
+        let q = qualified_sig(&f.sig, &f.msg, &rf.sub);
         if known.contains(&q) {
             println!("KNOWN-FINDING: property={} sig={} {}", rf.property, q, trunc(&f.msg, 600));
         } else {
